@@ -120,8 +120,23 @@ def run_static(spec, V):
         else:
             procs['owner'] = owner
         tops['owner'] = otop
+    steps = {}
+    from vivarium.core.process import Step
+
+    class MemberStep(Step, Viewer):
+        pass
+    for mpath, msch, mtop, mstep in topo.member_parts(spec):
+        inst = (MemberStep if mstep else Viewer)({'schema': msch})
+        node = steps if mstep else procs
+        for k in mpath[:-1]:
+            node = node.setdefault(k, {})
+        node[mpath[-1]] = inst
+        node = tops
+        for k in mpath[:-1]:
+            node = node.setdefault(k, {})
+        node[mpath[-1]] = mtop
     try:
-        e = Engine(processes=procs, topology=tops, initial_state=copy.deepcopy(init), display_info=False, emitter='null')
+        e = Engine(processes=procs, steps=steps or None, topology=tops, initial_state=copy.deepcopy(init), display_info=False, emitter='null')
         holder['e'] = e
         e.update(2.0)
         V.check('no_exception', True)
